@@ -80,6 +80,7 @@ func (u *decodeUnit) cycle(cycle int, app risc.Application, ctx *risc.Context) {
 		}
 		if runner.InstructionType() == risc.Ret {
 			u.ret = true
+			return
 		}
 	}
 }
